@@ -21,7 +21,12 @@ from .synccheck import rand_set, FLAGS
 def ro_cmd(rng) -> tuple:
     um = rng.random() < 0.5
     k = rng.choice(['store', 'store', 'fetch', 'fetchseen', 'expunge', 'uidexpunge', 'copy',
-                    'move', 'search', 'noop', 'check', 'intoRO', 'intoRO', 'copyRO', 'moveRO'])
+                    'move', 'search', 'noop', 'check', 'intoRO', 'intoRO', 'copyRO', 'moveRO',
+                    'appendself', 'copyself'])
+    if k == 'appendself':
+        return ('append', 'SELF', 1, ())
+    if k == 'copyself':
+        return ('copy', um, rand_set(rng, um, 4), 'SELF')
     if k == 'store':
         return ('store', um, rand_set(rng, um, 4), rng.choice('+-='), rng.random() < 0.4,
                 (rng.choice(FLAGS + ('\\Recent',)),))
@@ -78,12 +83,14 @@ def one(rng):
                 run.issue(s, cmd)
                 run.finish(s)
                 log.append(('cmd', s, cmd))
+        # no read-write selection of the target exists when every observer merely examines it
+        norw = all(c[2][0] == 'examine' for c in log if c[0] == 'cmd' and c[2][0] in ('select', 'examine'))
         how = 'select' if target == 'RO' else 'examine'
         for cmd in ((how, target), ('fetch', False, '1:*', False)):
             run.issue('a', cmd)
             run.finish('a')
             log.append(('cmd', 'a', cmd))
-        run.dump(target)
+        run.dump(target, norw)
         run.dump('RO')
         ncmds = rng.randint(2, 6)
         issued = 0
@@ -104,6 +111,7 @@ def one(rng):
             if act == 'issue':
                 if s == 'a':
                     cmd = ro_cmd(rng) if issued < ncmds - 1 or rng.random() < 0.5 else ('close',)
+                    cmd = tuple(target if x == 'SELF' else x for x in cmd)
                     issued += 1
                     closed = cmd == ('close',)
                 else:
@@ -117,16 +125,16 @@ def one(rng):
                 log.append(('step', s))
                 if s == 'a' and any(e['e'] == 'tagged' and e['s'] == 'a'
                                     for e in run.events[before:]):
-                    run.dump(target)
+                    run.dump(target, norw)
                     run.dump('RO')
         for s in sessions:
             before = len(run.events)
             run.finish(s)
             if s == 'a' and any(e['e'] == 'tagged' and e['s'] == 'a' for e in run.events[before:]):
-                run.dump(target)
+                run.dump(target, norw)
                 run.dump('RO')
         run.quiesce()
-        run.dump(target)
+        run.dump(target, norw)
         run.dump('RO')
     finally:
         run.close()
